@@ -1014,6 +1014,18 @@ def report(chk, case, impl, probs):
                   found_input=bool(oracle_bad) or sig == "impl-exception")
 
 
+def oracle_first(cases, impls, results):
+    """reporting order: cases whose statement-level oracle fails (concrete input) before cases where only model and implementation
+    disagree, so that the cap on reported violations never hides a concrete input behind a model-correspondence line"""
+    def rank(i):
+        pr = results[i] or []
+        if any(not sg.startswith("model-correspondence-") and sg != "impl-exception" for sg, _ in pr):
+            return 0
+        return 1 if pr else 2
+    order = sorted(range(len(cases)), key=rank)
+    return [(cases[i], impls[i], results[i]) for i in order]
+
+
 def main():
     chk = Check("C13", groups=["callbacks"])
     chk.build_props()
@@ -1029,7 +1041,7 @@ def main():
     distinct = set()
     hist = {"algo": {}, "rk": {}, "n_envs": {}, "calls": {}, "node_kinds": {}, "stopped_runs": 0, "real_eval": 0}
     reported = set()
-    for c, im, probs in zip(cases, impls, results):
+    for c, im, probs in oracle_first(cases, impls, results):
         hist["algo"][c["algo"]] = hist["algo"].get(c["algo"], 0) + 1
         hist["rk"][c["rk"][0]] = hist["rk"].get(c["rk"][0], 0) + 1
         hist["n_envs"][c["n_envs"]] = hist["n_envs"].get(c["n_envs"], 0) + 1
